@@ -694,16 +694,115 @@ def r2(cx):
                         cx.violation(root, 'debug-print:%s' % ga.split('::')[-1], '%s is shown to the user with Debug formatting' % ga, loc=b.loc(t))
 
 
+# ---------------------------------------------------------------- a function seen with its helpers and predicate closures in place
+# `opt.is_some_and(|x| p(x))` is `match opt { Some(x) => p(x), None => false }`: the rules about first_word_is_keyword (R3, R3b,
+# R5) decide clauses about WHICH tests stand between the words of the command and the answer, so they must read the same CFG
+# whether a test is written as a `let .. else`, as a private helper, or as a closure handed to one of the std predicates below.
+_ADAPTERS = re.compile(r'^core::(?:option::Option::<T>|result::Result::<T, E>)::(is_some_and|is_none_or|is_ok_and|is_err_and|map_or)$')
+# adapter -> (variant whose payload is given to the closure, index of the closure operand, answer for the other variant)
+_ADAPTER_SHAPE = {
+    ('option', 'is_some_and'): ('Some', 1, 'false'), ('option', 'is_none_or'): ('Some', 1, 'true'),
+    ('option', 'map_or'): ('Some', 2, None),
+    ('result', 'is_ok_and'): ('Ok', 1, 'false'), ('result', 'is_err_and'): ('Err', 1, 'false'),
+    ('result', 'map_or'): ('Ok', 2, None),
+}
+_ADAPTER_VARIANT_INDEX = {'None': 0, 'Some': 1, 'Ok': 0, 'Err': 1}
+
+
+def _expand_adapters(F, body, max_blocks=120):
+    """A copy of `body` in which every call `opt.is_some_and(closure)` (is_none_or / is_ok_and / is_err_and / map_or) whose
+    closure is a closure expression of the workspace is replaced by the `match` it stands for, with the closure's blocks in
+    place of the call. Returns `body` itself when there is no such call."""
+    import copy
+    import facts as _facts
+    du = Q.DefUse(body)
+    todo = []
+    for i, t in body.calls():
+        name = t['f'].get('def') or t['f'].get('decl') or ''
+        m = _ADAPTERS.match(name)
+        if not m or t.get('to') is None or t['dest'].get('p'):
+            continue
+        shape = _ADAPTER_SHAPE.get(('option' if 'option::Option' in name else 'result', m.group(1)))
+        if shape is None or len(t['a']) <= shape[1]:
+            continue
+        org = du.origin(t['a'][shape[1]])
+        if not (org['k'] == 'agg' and org['rv'].get('ak') == 'closure'):
+            continue
+        cb = F.bodies.get(org['rv'].get('def'))
+        if cb is None or cb.d.get('coroutine') or cb.argc != 2 or len(cb.blocks) > max_blocks:
+            continue
+        if not ('cp' in t['a'][0] or 'mv' in t['a'][0]):
+            continue
+        todo.append((i, t, cb, shape))
+    if not todo:
+        return body
+    d = copy.deepcopy(body.d)
+    for i, t, cb, (variant, ci, other) in todo:
+        line = t.get('line')
+        subject = len(d['locals'])
+        d['locals'].append({'ty': (t.get('at') or ['?'])[0]})
+        tag = len(d['locals'])
+        d['locals'].append({'ty': 'isize'})
+        L = len(d['locals'])
+        d['locals'].extend(copy.deepcopy(cb.locals))
+        b_other = len(d['blocks'])
+        b_call = b_other + 1
+        B = b_other + 2
+        d['blocks'].append({'s': [{'k': 'assign', 'lhs': t['dest'], 'line': line,
+                                   'rv': {'k': 'use', 'o': {'c': other, 'ty': 'bool'} if other is not None else t['a'][1]}}],
+                            't': {'k': 'goto', 'to': t['to'], 'line': line}})
+        d['blocks'].append({'s': [{'k': 'assign', 'lhs': {'l': L + 1}, 'rv': {'k': 'use', 'o': t['a'][ci]}, 'line': line},
+                                  {'k': 'assign', 'lhs': {'l': L + 2}, 'line': line,
+                                   'rv': {'k': 'use', 'o': {'mv': {'l': subject, 'p': [{'v': variant}, {'f': '0'}]}}}}],
+                            't': {'k': 'goto', 'to': B, 'line': line, 'inlined': cb.fn}})
+        cfile = cb.file if cb.file != body.file else None
+        for blk in cb.blocks:
+            d['blocks'].append(_facts._shift_block(blk, L, B, t['to'], t['dest'], cfile))
+        head = d['blocks'][i]
+        head['s'].append({'k': 'assign', 'lhs': {'l': subject}, 'rv': {'k': 'use', 'o': t['a'][0]}, 'line': line})
+        head['s'].append({'k': 'assign', 'lhs': {'l': tag}, 'line': line,
+                          'rv': {'k': 'discr', 'pl': {'l': subject}, 'ty': (t.get('at') or ['?'])[0]}})
+        head['t'] = {'k': 'switch', 'd': {'mv': {'l': tag}}, 'dty': 'isize', 'line': line,
+                     'ts': [[_ADAPTER_VARIANT_INDEX[variant], b_call]], 'else': b_other, 'adapter': t['f'].get('def') or t['f'].get('decl')}
+    nb = _facts.Body(d, body.crate)
+    nb.inlined_from = list(getattr(body, 'inlined_from', [])) + [cb.fn for _, _, cb, _ in todo]
+    return nb
+
+
+def _in_place(F, fn, rounds=4, max_total=600):
+    """The body of `fn` with the small private helpers of its module inlined (F.inlined) and the closures it hands to the
+    Option/Result predicates expanded (_expand_adapters), repeated so that a helper called from such a closure, and a
+    closure inside such a helper, are seen too."""
+    body = F.main_body(fn) if isinstance(fn, str) else fn
+    seen = list(getattr(body, 'inlined_from', []))
+    for _ in range(rounds):
+        nb = F.inlined(body)
+        if nb is not body:
+            seen += [f for f in getattr(nb, 'inlined_from', []) if f not in seen]
+        nb2 = _expand_adapters(F, nb)
+        if nb2 is not nb:
+            seen += [f for f in getattr(nb2, 'inlined_from', []) if f not in seen]
+        if nb2 is body or len(nb2.blocks) > max_total:
+            break
+        body = nb2
+    if seen:
+        body.inlined_from = seen
+    return body
+
+
 # ---------------------------------------------------------------- R3: documented disambiguations
-def _bool_eval(n, atoms):
-    """Evaluate a condition built from !, ||, && over recognised atoms; atoms(node) -> key or None."""
+def _bool_eval(n, atoms, lets=None, depth=6):
+    """Evaluate a condition built from !, ||, && over recognised atoms; atoms(node) -> key or None. `lets` = {binding id:
+    initialiser} of the immutable `let`s of the function: a condition materialised in a local is read through it."""
     n = strip(n)
     k = n.get('k')
+    if k == 'local' and lets and n.get('id') in lets and depth > 0:
+        return _bool_eval(lets[n['id']], atoms, lets, depth - 1)
     if k == 'unary' and n.get('op') == '!':
-        f = _bool_eval(n['a'], atoms)
+        f = _bool_eval(n['a'], atoms, lets, depth)
         return None if f is None else (lambda env, f=f: not f(env))
     if k == 'binary' and n.get('op') in ('||', '&&'):
-        a, b = _bool_eval(n['a'], atoms), _bool_eval(n['b'], atoms)
+        a, b = _bool_eval(n['a'], atoms, lets, depth), _bool_eval(n['b'], atoms, lets, depth)
         if a is None or b is None:
             return None
         if n['op'] == '||':
@@ -732,14 +831,28 @@ def r3(cx):
         if n.get('k') == 'mcall' and (n.get('def') or '').endswith('SimpleCommand::first_word_is_keyword'):
             return 'keyword_first'
         return None
-    ifs = [x for x in H.walk(h['body']) if x.get('k') == 'if' and H.calls(x['c'], [re.compile(r'first_word_is_keyword$')])]
+    # immutable `let name = <init>;` bindings: a condition may be materialised in one before it is tested
+    lets = {}
+    for x in H.walk(h['body']):
+        if x.get('k') == 'block':
+            for st in x.get('stmts') or []:
+                if st.get('k') == 'let' and st['pat'].get('k') == 'bind' and not st['pat'].get('sub') and st.get('init') and \
+                        not st.get('els') and (st['pat'].get('mode') or '').replace(' ', '').endswith(',Not)'):
+                    lets[st['pat']['id']] = st['init']
+
+    def tests_keyword(c, depth=6):
+        if H.calls(c, [re.compile(r'first_word_is_keyword$')]):
+            return True
+        return depth > 0 and any(y.get('k') == 'local' and y.get('id') in lets and tests_keyword(lets[y['id']], depth - 1)
+                                 for y in H.walk(c))
+    ifs = [x for x in H.walk(h['body']) if x.get('k') == 'if' and tests_keyword(x['c'])]
     if not ifs:
         cx.site('Display for SimpleCommand: no test of first_word_is_keyword')
         cx.violation(dfn, 'no-keyword-test', 'a simple command whose first word is a reserved word (e.g. `>/dev/null if`) is printed '
                      'words-first and re-parses as a compound command', loc=loc_of(h))
     else:
         cx.require(len(ifs) == 1, 'Display for SimpleCommand: more than one keyword test')
-        f = _bool_eval(ifs[0]['c'], atoms)
+        f = _bool_eval(ifs[0]['c'], atoms, lets)
         cx.require(f is not None, 'Display for SimpleCommand: condition is not a formula over assigns.is_empty() and first_word_is_keyword()')
         # which iterator is which field
         field_of = {}
@@ -786,8 +899,10 @@ def r3(cx):
     # first_word_is_keyword consults the lexer's keyword table
     kfn = [k for k in F.hir if k.endswith('SimpleCommand::first_word_is_keyword')]
     cx.require(len(kfn) == 1, 'first_word_is_keyword not found')
-    kb = F.body(kfn[0])
+    kb = _in_place(F, kfn[0])          # a lookup moved into a private helper or a predicate closure still counts
     cx.fn(kfn[0])
+    for f_ in getattr(kb, 'inlined_from', []):
+        cx.fn(f_)
     parses = [t for b, t in kb.calls() if (t['f'].get('ga') or '').startswith(KW) or KW in ' '.join(Q.callee_names(t))]
     cx.site('first_word_is_keyword: keyword table used at %d sites' % len(parses))
     if not parses:
@@ -1023,9 +1138,189 @@ def r3b(cx):
     _r3b_decide(cx, F, fns)
 
 
+_R3B_ABSENT = [re.compile(r'::first$'), re.compile(r'::to_string_if_literal$'), re.compile(r'::get$'), re.compile(r'::first_mut$')]
+_R3B_KW_RESULT = 'core::result::Result<' + KW + ','
+
+
+def _r3b_sources(b, du, local, depth=24):
+    """Every definition the value of `local` may come from, followed through moves, borrows, `?` and the adaptors that keep
+    absence (Q.PROPAGATING_CALLS): [('call', block, terminator) | ('other', block, node) | ('arg', None, local)]."""
+    out, seen, work = [], set(), [(local, depth)]
+    while work:
+        l, dep = work.pop()
+        if l in seen:
+            continue
+        seen.add(l)
+        defs = du.defs.get(l, [])
+        if not defs or dep == 0:
+            out.append(('other' if defs else 'arg', None, l))
+            continue
+        for blk, idx, node in defs:
+            if (node.get('dest') if idx == 't' else node.get('lhs') or {}).get('p'):
+                out.append(('other', blk, node))
+            elif idx == 't':
+                src = Q.operand_place(node['a'][0]) if node['a'] else None
+                if src is not None and Q.callee_is(node, Q.TRY_BRANCH + Q.PROPAGATING_CALLS):
+                    work.append((src['l'], dep - 1))
+                else:
+                    out.append(('call', blk, node))
+            elif node['k'] == 'assign' and node['rv']['k'] == 'use' and Q.operand_place(node['rv']['o']) is not None:
+                work.append((Q.operand_place(node['rv']['o'])['l'], dep - 1))
+            elif node['k'] == 'assign' and node['rv']['k'] == 'ref':
+                work.append((node['rv']['pl']['l'], dep - 1))
+            else:
+                out.append(('other', blk, node))
+    return out
+
+
+def _r3b_from_words(b, du, local, depth=12):
+    """The value of `local` is (a view of) the `words` of the simple command: `self.words`, its slice, a borrow of either."""
+    seen = set()
+    while depth > 0 and local not in seen:
+        seen.add(local)
+        depth -= 1
+        defs = du.defs.get(local, [])
+        if len(defs) != 1:
+            return False
+        blk, idx, node = defs[0]
+        if idx == 't':
+            if not (node['a'] and Q.operand_place(node['a'][0]) is not None and Q.callee_is(node, [
+                    re.compile(r'^alloc::vec::Vec::<T, A>::(as_slice|as_mut_slice)$'), '*::Deref::deref', '*::AsRef::as_ref', '*::Borrow::borrow',
+                    re.compile(r'^<alloc::vec::Vec<T, A> as core::ops::deref::Deref>::deref$')])):
+                return False
+            local = Q.operand_place(node['a'][0])['l']
+            continue
+        if node['k'] != 'assign' or node['lhs'].get('p'):
+            return False
+        rv = node['rv']
+        pl = rv['pl'] if rv['k'] == 'ref' else Q.operand_place(rv['o']) if rv['k'] == 'use' else None
+        if pl is None:
+            return False
+        proj = [e for e in pl.get('p') or [] if e != '*']
+        if proj:
+            return len(proj) == 1 and isinstance(proj[0], dict) and proj[0].get('f') == 'words' and proj[0].get('adt') == SYN + 'SimpleCommand'
+        local = pl['l']
+    return False
+
+
+def _r3b_justified_edges(cx, F, b, du, words, covered_residuals=None):
+    """The switch edges on which answering "not a keyword" is right: the first word is missing / not a literal, the keyword
+    table said no, or a length test that no keyword passes. covered_residuals = blocks of `?` propagations (from_residual)
+    that are themselves only reached through such an edge (None: do not accept any)."""
+    maxlen, minlen = max(len(w) for w in words), min(len(w) for w in words)
+    notes = {}
+
+    def absent_value(local):
+        srcs = _r3b_sources(b, du, local)
+        if not srcs:
+            return False
+        for kind, blk, node in srcs:
+            if kind != 'call':
+                return False
+            dty = (node.get('dty') or '').lstrip('&')
+            if Q.callee_is(node, _R3B_ABSENT) or dty.startswith(_R3B_KW_RESULT):
+                continue
+            if Q.callee_is(node, Q.FROM_RESIDUAL) and dty.startswith('core::option::Option<') and \
+                    covered_residuals is not None and blk in covered_residuals:
+                continue
+            return False
+        return True
+
+    def const_int(o):
+        if not isinstance(o, dict) or not ('c' in o or 'cdef' in o):
+            return None
+        if o.get('cdef') and o['cdef'] in F.hir:
+            v = H.const_eval(F.hir[o['cdef']]['body'])
+            if isinstance(v, int) and not isinstance(v, bool):
+                return v
+        try:
+            return int(str(o.get('c')).split('_')[0])
+        except ValueError:
+            return None
+
+    def words_len(o):
+        """operand `o` is the number of words of the command"""
+        org = du.origin(o)
+        if org['k'] == 'unop' and org['rv'].get('op') in ('PtrMetadata', 'Len'):
+            pl = Q.operand_place(org['rv']['o']) if isinstance(org['rv'].get('o'), dict) else org['rv'].get('pl')
+            return pl is not None and _r3b_from_words(b, du, pl['l'])
+        if org['k'] == 'unknown' and org['rv'].get('k') == 'len' and org['rv'].get('pl'):
+            return _r3b_from_words(b, du, org['rv']['pl']['l'])
+        if org['k'] == 'call' and Q.callee_is(org['t'], [re.compile(r'::len$')]) and org['t']['a'] and Q.operand_place(org['t']['a'][0]):
+            return _r3b_from_words(b, du, Q.operand_place(org['t']['a'][0])['l'])
+        return False
+
+    def justified(org, lab, u):
+        org, lab = Q.peel_not(du, org, lab)
+        if org['k'] == 'discr':
+            ty = org['ty'].lstrip('&')
+            if lab == ('variant', 'None') and ty.startswith('core::option::Option<'):
+                return absent_value(org['pl']['l'])
+            if lab == ('variant', 'Break') and ty.startswith('core::ops::control_flow::ControlFlow<core::option::Option<core::convert::Infallible>'):
+                return absent_value(org['pl']['l'])
+            # "from the keyword table": the lookup result (a Result<Keyword, _>) is known to be Err on this path
+            if lab == ('variant', 'Err') and ty.startswith(_R3B_KW_RESULT):
+                return True
+            return False
+        if org['k'] == 'call' and lab[0] == 'bool':
+            t = org['t']
+            at0 = ((t.get('at') or [''])[0]).lstrip('&')
+            if at0.startswith(_R3B_KW_RESULT) and \
+                    ((Q.callee_is(t, [re.compile(r'^core::result::Result::<T, E>::is_err$')]) and lab[1] is True) or
+                     (Q.callee_is(t, [re.compile(r'^core::result::Result::<T, E>::is_ok$')]) and lab[1] is False)):
+                return True
+            src = Q.operand_place(t['a'][0]) if t['a'] else None
+            if src is not None and at0.startswith('core::option::Option<') and \
+                    ((Q.callee_is(t, [re.compile(r'^core::option::Option::<T>::is_none$')]) and lab[1] is True) or
+                     (Q.callee_is(t, [re.compile(r'^core::option::Option::<T>::is_some$')]) and lab[1] is False)):
+                return absent_value(src['l'])
+            if src is not None and lab[1] is True and Q.callee_is(t, [re.compile(r'::is_empty$')]):
+                return _r3b_from_words(b, du, src['l'])
+            return False
+        if org['k'] == 'binop' and lab[0] == 'bool' and org['rv']['op'] in ('Eq', 'Ne'):
+            # `[] => false` / `words.len() == 0`: there is no first word
+            for x, y in ((org['rv']['a'], org['rv']['b']), (org['rv']['b'], org['rv']['a'])):
+                if const_int(du.origin(y).get('o') if du.origin(y)['k'] == 'const' else None) == 0 and words_len(x):
+                    return (org['rv']['op'] == 'Eq') == lab[1]
+            return False
+        if org['k'] == 'binop' and lab[0] == 'bool' and org['rv']['op'] in ('Gt', 'Ge', 'Lt', 'Le'):
+            ops = [du.origin(o)['o'] if du.origin(o)['k'] == 'const' else o for o in (org['rv']['a'], org['rv']['b'])]
+            consts = [(i, o) for i, o in enumerate(ops) if 'c' in o or 'cdef' in o]
+            if len(consts) != 1:
+                return False
+            i, o = consts[0]
+            n = const_int(o)
+            if n is None:
+                return False
+            op = org['rv']['op']
+            # normalise to: "length REL n" holds on this edge, with the length on the left
+            if i == 0:
+                op = {'Gt': 'Lt', 'Ge': 'Le', 'Lt': 'Gt', 'Le': 'Ge'}[op]
+            if not lab[1]:
+                op = {'Gt': 'Le', 'Ge': 'Lt', 'Lt': 'Ge', 'Le': 'Gt'}[op]
+            notes[u] = 'length %s %d' % (op, n)
+            # false may be answered only for lengths that no keyword has
+            return (op == 'Gt' and n >= maxlen) or (op == 'Ge' and n > maxlen) or (op == 'Lt' and n <= minlen) or (op == 'Le' and n < minlen)
+        return False
+
+    edges = set()
+    for u in sorted(b.live_blocks()):
+        ec = Q.edge_condition(F, b, du, u)
+        if ec is None:
+            continue
+        org, labels = ec
+        for v, labs in labels.items():
+            if labs and all(justified(org, lab, u) for lab in labs):
+                edges.add((u, v))
+    return edges, notes
+
+
 def _r3b_decide(cx, F, fns):
-    b = F.bodies[fns[0]]
+    # the function with its private helpers and predicate closures in place: the tests are the same tests wherever they are written
+    b = _in_place(F, fns[0])
     cx.fn(b.fn)
+    for f_ in getattr(b, 'inlined_from', []):
+        cx.fn(f_)
     du = Q.DefUse(b)
     # longest keyword, read from Keyword::as_str
     kfn = [k for k in F.hir if k.endswith('Keyword::as_str') or k.endswith('<impl yash_syntax::parser::lex::keyword::Keyword>::as_str')]
@@ -1033,54 +1328,41 @@ def _r3b_decide(cx, F, fns):
     words = [x.get('v') for x in H.walk(F.hir[kfn[0]]['body']) if x.get('k') == 'lit' and x.get('t') == 'str']
     cx.require(len(words) >= 15, 'keyword table not readable')
     maxlen = max(len(w) for w in words)
-    falses = [(blk, j, s) for blk, j, s in b.stmts() if s['k'] == 'assign' and s['lhs']['l'] == 0 and not s['lhs'].get('p')
+    # locals that carry the answer: the return place and whatever is moved into it (results of inlined helpers / closures, `let r = ..; r`)
+    carriers = {0}
+    grew = True
+    while grew:
+        grew = False
+        for blk, j, s in b.stmts():
+            if s['k'] == 'assign' and not s['lhs'].get('p') and s['lhs']['l'] in carriers and s['rv']['k'] == 'use':
+                pl = Q.operand_place(s['rv']['o'])
+                if pl is not None and not pl.get('p') and pl['l'] not in carriers and b.locals[pl['l']].get('ty') == 'bool':
+                    carriers.add(pl['l'])
+                    grew = True
+    falses = [(blk, j, s) for blk, j, s in b.stmts() if s['k'] == 'assign' and s['lhs']['l'] in carriers and not s['lhs'].get('p')
               and s['rv']['k'] == 'use' and str(s['rv']['o'].get('c')) == 'false']
     cx.site('first_word_is_keyword: %d constant-false results; longest keyword has %d characters' % (len(falses), maxlen))
+    # edges that justify the answer `false`; a `?` that hands an absent first word on is justified by the edge it was reached through
+    strict, _ = _r3b_justified_edges(cx, F, b, du, words)
+    open_blocks = b.reachable(0, removed_edges=strict)
+    residuals = {blk for blk, t in b.calls() if Q.callee_is(t, Q.FROM_RESIDUAL) and blk not in open_blocks}
+    just, notes = _r3b_justified_edges(cx, F, b, du, words, covered_residuals=residuals)
+    cx.site('first_word_is_keyword: %d switch edge(s) justify the answer `false` (first word missing / not a literal, keyword table '
+            'said no, length no keyword has)' % len(just))
+    before = b.reachable(0, removed_edges=just)
+    rets = set(b.return_blocks())
     for blk, j, s in falses:
-        conds = Q.dominating_conditions(F, b, du, blk)
-        ok = False
-        why = []
-        for org, lab, e in conds:
-            if org['k'] == 'discr' and lab == ('variant', 'None') and 'core::option::Option' in org['ty']:
-                src = Q.value_source(b, du, {'cp': {'l': org['pl']['l']}})
-                if src is not None and Q.callee_is(src, [Q.re.compile(r'::first$'), Q.re.compile(r'::to_string_if_literal$'),
-                                                          Q.re.compile(r'::get$'), Q.re.compile(r'::first_mut$')]):
-                    ok = True
-            # "from the keyword table": the lookup result (a Result<Keyword, _>) is known to be Err on this path
-            if org['k'] == 'discr' and lab == ('variant', 'Err') and org['ty'].lstrip('&').startswith('core::result::Result<' + KW + ','):
-                ok = True
-            if org['k'] == 'call' and (org['t'].get('at') or [''])[0].lstrip('&').startswith('core::result::Result<' + KW + ',') and \
-                    ((Q.callee_is(org['t'], [Q.re.compile(r'^core::result::Result::<T, E>::is_err$')]) and lab == ('bool', True)) or
-                     (Q.callee_is(org['t'], [Q.re.compile(r'^core::result::Result::<T, E>::is_ok$')]) and lab == ('bool', False))):
-                ok = True
-            if org['k'] == 'binop' and org['rv']['op'] in ('Gt', 'Ge', 'Lt', 'Le'):
-                a_, b_ = org['rv']['a'], org['rv']['b']
-                consts = [(i, o) for i, o in enumerate((a_, b_)) if 'c' in o or 'cdef' in o]
-                if consts:
-                    i, o = consts[0]
-                    n = None
-                    if o.get('cdef') and o['cdef'] in F.hir:
-                        v = H.const_eval(F.hir[o['cdef']]['body'])
-                        n = v if isinstance(v, int) else None
-                    if n is None:
-                        try:
-                            n = int(str(o.get('c')).split('_')[0])
-                        except ValueError:
-                            continue
-                    op = org['rv']['op']
-                    truth = lab[1]
-                    # normalise to: "length REL n" holds on this edge, with the length on the left
-                    if i == 0:
-                        op = {'Gt': 'Lt', 'Ge': 'Le', 'Lt': 'Gt', 'Le': 'Ge'}[op]
-                    if not truth:
-                        op = {'Gt': 'Le', 'Ge': 'Lt', 'Lt': 'Ge', 'Le': 'Gt'}[op]
-                    # false may be answered only for lengths that no keyword has
-                    admits = (op == 'Gt' and n >= maxlen) or (op == 'Ge' and n > maxlen) or (op == 'Lt' and n <= min(len(w) for w in words)) \
-                        or (op == 'Le' and n < min(len(w) for w in words))
-                    why.append('length %s %d' % (op, n))
-                    if admits:
-                        ok = True
-        if not ok:
+        c = s['lhs']['l']
+        # the constant is the answer unless the carrier is written again on the way out
+        if any(s2['k'] == 'assign' and s2['lhs']['l'] == c and not s2['lhs'].get('p') for s2 in b.blocks[blk]['s'][j + 1:]):
+            continue
+        kills = {x for x, _, s2 in b.stmts() if x != blk and s2['k'] == 'assign' and s2['lhs']['l'] == c and not s2['lhs'].get('p')}
+        ckills = {x for x, t in b.calls() if x != blk and t['dest']['l'] == c and not t['dest'].get('p')}
+        # a call that defines the carrier does so when it returns: its own block is still passed
+        after = b.reachable(blk, removed=kills, removed_edges=just | {(x, y) for x in ckills for y in b.succ(x)})
+        # violated iff some path entry -> this `false` -> return takes none of the justifying edges
+        if blk in before and (rets & after):
+            why = sorted({notes[u] for org, lab, (u, v) in Q.dominating_conditions(F, b, du, blk) if u in notes and (u, v) not in just})
             cx.violation(b.fn, 'false-without-table', 'first_word_is_keyword answers "not a keyword" on a path that neither found the first word '
                          'missing/non-literal nor consulted the keyword table (%s; the longest keyword has %d characters): a simple command whose '
                          'name is that keyword after a redirection is then printed words-first and no longer parses back'
@@ -1367,7 +1649,9 @@ def r5(cx):
 
 
 def _r5_decide(cx, F, fns):
-    body = F.inlined(fns[0])
+    # helpers of the module and closures given to Option/Result predicates in place (a lookup inside `first().is_some_and(|w| ..)`
+    # or inside a private `word_is_keyword(word)` is the same lookup)
+    body = _in_place(F, fns[0])
     cx.fn(body.fn)
     for f_ in getattr(body, 'inlined_from', []):
         cx.fn(f_)
